@@ -675,4 +675,26 @@ example : envOK (docEnv sibDoc) = true ∧ idsNodup (docEnv sibDoc) = true ∧
     envOK (docEnv crossDoc) = true ∧ idsNodup (docEnv crossDoc) = true ∧
     inheritFree (docEnv crossDoc) "v".toList = true := by decide
 
+/-- second clause of `c11_partial` on `exDoc` -/
+example : setValue "free".toList (.one newV) exDoc = (.ok (), exDoc.updBind 11 newV) :=
+  (c11_partial exDoc "free".toList "free".toList newV 11 "free".toList false "nowhere".toList [] []
+    rfl (by decide) (by decide) (by decide) (by decide) (by decide) (by decide) (by decide)
+    (by decide)).2 (by decide) (by decide)
+
+/-- `let v = "0"; in f (let v = w; w = "1"; in { version = v; })` — behind a wrapper that carries a
+    let (which also binds `v`), the chain resolves inside the set's own layer -/
+def wrapDoc : Doc :=
+  { target := .set 1 [ .bind 2 "version".toList false (.ident "v".toList) [] [] ] [] true false
+    scope := [ .bind 3 "v".toList false (.ident "w".toList) [] [],
+               .bind 4 "w".toList false (.atom "\"1\"".toList) [] [] ]
+    topScope := some [ .bind 5 "v".toList false (.atom "\"0\"".toList) [] [] ]
+    next := 6 }
+
+/-- `c11_partial_through_chain` on it: object 4 is written, not the outer `v` (object 5) -/
+example : Defines (docEnv wrapDoc) "v".toList 4 ∧
+    setValue "version".toList (.one newV) wrapDoc = (.ok (), wrapDoc.updBind 4 newV) :=
+  c11_partial_through_chain wrapDoc "version".toList "version".toList newV 2 "version".toList false
+    "v".toList [] [] 4 rfl (by decide) (by decide) (by decide) (by decide) (by decide) (by decide)
+    (by decide) (by decide) (resolveIdent_sound 3 _ _ _ (by decide) (by decide) (by decide))
+
 end Nima.C11
